@@ -116,6 +116,22 @@ theorem step_ghost_other (c : Conn α) (l : Label α) (hl : ∀ calls listen ver
         · exact ⟨rfl, rfl⟩
   | «end» => exact ⟨rfl, rfl⟩
   | evict _ _ => exact ⟨rfl, rfl⟩
+  | wroute msg ctx ctxNew =>
+    show (wrouteR c msg ctx ctxNew).1.born = c.born ∧ (wrouteR c msg ctx ctxNew).1.hist = c.hist
+    unfold wrouteR
+    split
+    · exact ⟨rfl, rfl⟩
+    · split
+      · simp
+      · split <;> simp
+  | wdeliver i =>
+    show (wdeliverR c i).1.born = c.born ∧ (wdeliverR c i).1.hist = c.hist
+    unfold wdeliverR
+    split
+    · exact ⟨rfl, rfl⟩
+    · split
+      · simp [writeTo]
+      · simp [orphanWrite]
 
 theorem postPrimed_born (c : Conn α) (calls : List Nat) (listen : Bool) (ver : Ver) (budget : Option Nat) :
     (postPrimed c calls listen ver budget).born = (fun k => if k = c.nextSid then some c.exs.length else c.born k) := by
@@ -191,6 +207,8 @@ theorem ext_step {c : Conn α} (h10 : Inv10 c) (hb : InvBorn c) (l : Label α) :
     | sclose _ _ => rw [(step_ghost_other c _ (by intros; simp)).2]; exact hv
     | «end» => exact hv
     | evict _ _ => exact hv
+    | wroute _ _ _ => rw [(step_ghost_other c _ (by intros; simp)).2]; exact hv
+    | wdeliver _ => rw [(step_ghost_other c _ (by intros; simp)).2]; exact hv
   · intro sid x hx
     cases l with
     | post calls listen ver b =>
@@ -208,6 +226,8 @@ theorem ext_step {c : Conn α} (h10 : Inv10 c) (hb : InvBorn c) (l : Label α) :
     | sclose _ _ => rw [(step_ghost_other c _ (by intros; simp)).1]; exact hx
     | «end» => exact hx
     | evict _ _ => exact hx
+    | wroute _ _ _ => rw [(step_ghost_other c _ (by intros; simp)).1]; exact hx
+    | wdeliver _ => rw [(step_ghost_other c _ (by intros; simp)).1]; exact hx
 
 theorem invBorn_old_ex {c : Conn α} (hw : Inv c) (hb : InvBorn c) (l : Label α) :
     ∀ sid x, c.born sid = some x → ∃ e, (step c l).exs[x]? = some e ∧ e.stream = sid ∧ e.live ∧ e.from = 0 := by
@@ -292,6 +312,8 @@ theorem invBorn_step {c : Conn α} (hw : Inv c) (hb : InvBorn c) (l : Label α) 
   | sclose _ _ => exact invBorn_step_other hw hb _ (by intros; simp)
   | «end» => exact invBorn_step_other hw hb _ (by intros; simp)
   | evict _ _ => exact invBorn_step_other hw hb _ (by intros; simp)
+  | wroute _ _ _ => exact invBorn_step_other hw hb _ (by intros; simp)
+  | wdeliver _ => exact invBorn_step_other hw hb _ (by intros; simp)
 
 /-! ### generic message invariant -/
 
@@ -607,10 +629,79 @@ theorem invMsg_get (hP : PMono P) {c : Conn α} (hw : Inv c) (h : InvMsg P c) (h
 /-- what a write label must guarantee: `P` holds on the stream the write is routed to -/
 def RouteOK (P : Conn α → Nat → Item α → Prop) (c : Conn α) : Label α → Prop
   | .write msg ctx _ => ∀ s, route c msg ctx = some s → P c s.id ⟨msg, ctx⟩
+  | .wroute msg ctx _ => ∀ s, route c msg ctx = some s → P c s.id ⟨msg, ctx⟩
   | _ => True
 
-theorem invMsg_step (hP : PMono P) {c : Conn α} (hw : Inv c) (h10 : Inv10 c) (hb : InvBorn c) (h : InvMsg P c) (l : Label α)
-    (hl : RouteOK P c l) : InvMsg P (step c l) := by
+/-- `P` holds for every pending write on the stream it was routed to -/
+def PendP (P : Conn α → Nat → Item α → Prop) (c : Conn α) : Prop := ∀ pw ∈ c.pendW, P c pw.sid ⟨pw.msg, pw.ctx⟩
+
+theorem pendP_init (cfg : Cfg) : PendP P (init cfg : Conn α) := by intro pw h; simp [init] at h
+
+theorem pendP_step (hP : PMono P) {c : Conn α} (h10 : Inv10 c) (hb : InvBorn c) (hpp : PendP P c) (l : Label α)
+    (hl : RouteOK P c l) : PendP P (step c l) := by
+  intro pw hp
+  have hext := ext_step h10 hb l
+  rcases step_pendW c l pw hp with h0 | ⟨msg, ctx, ctxNew, s, rfl, hs, rfl⟩
+  · exact hP _ _ hext _ _ (hpp pw h0)
+  · exact hP _ _ hext _ _ (hl s hs)
+
+theorem invMsg_pendW {c : Conn α} (h : InvMsg P c) (l : List (PendW α)) (hm : ∀ sid it, P c sid it → P ({ c with pendW := l } : Conn α) sid it) :
+    InvMsg P ({ c with pendW := l } : Conn α) :=
+  ⟨fun s hs p hp it hit => hm _ _ (h.pend s hs p hp it hit), fun j e he o ho it hit => hm _ _ (h.ex j e he o ho it hit),
+    fun sid log hl it hit => hm _ _ (h.log sid log hl it hit)⟩
+
+theorem invMsg_wroute (hP : PMono P) {c : Conn α} (h : InvMsg P c) (msg : Msg α) (ctx : Option Nat) (ctxNew : Bool) :
+    InvMsg P (wrouteR c msg ctx ctxNew).1 := by
+  unfold wrouteR
+  split
+  · exact h
+  · split
+    · exact invMsg_eraseResp hP h msg
+    · split
+      · exact invMsg_eraseResp hP h msg
+      · exact invMsg_pendW (invMsg_eraseResp hP h msg) _ (pmono_eq hP rfl rfl rfl)
+
+theorem invMsg_orphan (hP : PMono P) {c : Conn α} (h : InvMsg P c) (pw : PendW α) (hrt : P c pw.sid ⟨pw.msg, pw.ctx⟩) :
+    InvMsg P (orphanWrite c pw).1 := by
+  have hmono : ∀ {sid : Nat} {it : Item α}, P c sid it → P (orphanWrite c pw).1 sid it :=
+    fun hr => pmono_eq (c := c) (c' := (orphanWrite c pw).1) hP rfl rfl rfl _ _ hr
+  refine ⟨fun s hs p hp it hit => hmono (h.pend s hs p hp it hit),
+    fun j e he o ho it hit => hmono (h.ex j e he o ho it hit), ?_⟩
+  intro sid log hl it hit
+  simp only [orphanWrite] at hl
+  split at hl
+  · by_cases hk : sid = pw.sid
+    · subst hk
+      simp only [appendLog_same, Option.some.injEq] at hl
+      subst hl
+      rcases List.mem_append.mp hit with hit | hit
+      · cases hc : c.store pw.sid with
+        | none => rw [hc] at hit; simp at hit
+        | some l => rw [hc] at hit; exact hmono (h.log pw.sid l hc it (by simpa using hit))
+      · simp at hit; subst hit; exact hmono hrt
+    · rw [appendLog_other _ _ _ _ hk] at hl; exact hmono (h.log sid log hl it hit)
+  · exact hmono (h.log sid log hl it hit)
+
+theorem invMsg_wdeliver (hP : PMono P) {c : Conn α} (hw : Inv c) (h : InvMsg P c) (hpp : PendP P c) (i : Nat) :
+    InvMsg P (wdeliverR c i).1 := by
+  unfold wdeliverR
+  split
+  · exact h
+  · rename_i pw hpw
+    have hrt := hpp pw (List.mem_of_getElem? hpw)
+    have hm1 := pmono_eq (c := c) (c' := ({ c with pendW := c.pendW.eraseIdx i } : Conn α)) hP rfl rfl rfl
+    have hw1 : Inv ({ c with pendW := c.pendW.eraseIdx i } : Conn α) :=
+      inv_pendW hw _ (fun x hx => hw.pend_lt x (mem_eraseIdx hx))
+    have h1 : InvMsg P ({ c with pendW := c.pendW.eraseIdx i } : Conn α) := invMsg_pendW h _ hm1
+    split
+    · rename_i s hs
+      refine invMsg_writeTo hP hw1 h1 (findStream_some hs).1 _ _ _ ?_
+      rw [(findStream_some hs).2]
+      exact hm1 _ _ hrt
+    · exact invMsg_orphan hP h1 pw (hm1 _ _ hrt)
+
+theorem invMsg_step (hP : PMono P) {c : Conn α} (hw : Inv c) (h10 : Inv10 c) (hb : InvBorn c) (h : InvMsg P c) (hpp : PendP P c)
+    (l : Label α) (hl : RouteOK P c l) : InvMsg P (step c l) := by
   unfold step stepR
   cases l with
   | post calls listen ver budget => exact invMsg_post hP hw h10 hb h _ _ _ _
@@ -629,5 +720,7 @@ theorem invMsg_step (hP : PMono P) {c : Conn α} (hw : Inv c) (h10 : Inv10 c) (h
     exact ⟨fun s hs p hp it hit => hm _ _ (h.pend s hs p hp it hit),
       fun j e he o ho it hit => hm _ _ (h.ex j e he o ho it hit),
       fun sid' log hl it hit => hm _ _ (h.log sid' log hl it hit)⟩
+  | wroute msg ctx ctxNew => exact invMsg_wroute hP h _ _ _
+  | wdeliver i => exact invMsg_wdeliver hP hw h hpp i
 
 end Resume
